@@ -73,6 +73,7 @@ type interpreter struct {
 	collisionFree bool
 	czCount     int
 	divCount    int
+	gzipCount   int
 	skipExt     *ssa.Function
 	curFr       *frame
 	divCache    map[divKey][2]*smt.Term
